@@ -103,20 +103,27 @@ func (c *MJBodyComponent) Render(w io.StringWriter) error {
 		c.RenderOpts.PendingMSOSectionClose = false
 	}
 
-	// Track how many Outlook-sensitive blocks remain (mj-section and mj-wrapper)
-	// so conditional comments can be chained correctly across mixed content.
-	remainingBlocks := 0
-	for _, child := range c.Children {
-		switch child.(type) {
-		case *MJSectionComponent, *MJWrapperComponent:
-			remainingBlocks++
+	// An Outlook conditional comment may only be left open for the next block when
+	// that block continues it with its very first write (a regular mj-section or a
+	// regular mj-wrapper). Anything else (full-width blocks, mj-hero, mj-raw, ...)
+	// starts with markup that must not end up inside the comment.
+	continuesMSOComment := func(next Component) bool {
+		switch n := next.(type) {
+		case *MJSectionComponent:
+			return n.GetAttributeWithDefault(n, "full-width") == ""
+		case *MJWrapperComponent:
+			return !n.isFullWidth()
 		}
+		return false
 	}
 
-	for _, child := range c.Children {
+	for i, child := range c.Children {
+		remainingBlocks := 0
+		if i+1 < len(c.Children) && continuesMSOComment(c.Children[i+1]) {
+			remainingBlocks = 1
+		}
 		switch comp := child.(type) {
 		case *MJSectionComponent:
-			remainingBlocks--
 			if c.RenderOpts != nil {
 				c.RenderOpts.RemainingBodySections = remainingBlocks
 			}
@@ -125,7 +132,6 @@ func (c *MJBodyComponent) Render(w io.StringWriter) error {
 			}
 			continue
 		case *MJWrapperComponent:
-			remainingBlocks--
 			if c.RenderOpts != nil {
 				c.RenderOpts.RemainingBodySections = remainingBlocks
 			}
